@@ -25,7 +25,8 @@ ATTR_KIND = {
     "fill-opacity": "number", "stroke-opacity": "number", "stroke-width": "length", "opacity": "number",
     "x": "length", "y": "length", "width": "length", "height": "length", "cx": "length", "cy": "length", "r": "length",
     "rx": "length", "ry": "length", "x1": "length", "y1": "length", "x2": "length", "y2": "length",
-    "style": "style", "patternTransform": "transform",
+    "style": "style", "patternTransform": "transform", "dx": "length", "dy": "length", "font-size": "length",
+    "preserveAspectRatio": "par",
 }
 
 BAD = {
@@ -35,6 +36,7 @@ BAD = {
     "points": ["1,2 3", "1,2,x", "junk", "1 2 3 4 5", "", ",", "1,,2", "1e 2", "a,b c,d", "1,2 3,4 5,", "(1,2)", "1;2 3;4"],
     "viewbox": ["0 0 100", "a b c d", "0,0,,", "", "0 0 0 0", "1 2 3 4 5", "0 0 -10 10", "0 0 1e400 1", "none", "0 0 100 x"],
     "number": ["junk", "1..", "-", "", "1e", "50%%", "0,5", "abc", "1e400", "++1"],
+    "par": ["xMidYMid foo", "none none", "", "junk", "xMinYMin meet slice", "slice", "xmidymid", "xMaxYMax  ", "meet xMidYMid", "defer"],
     "style": ["fill:#gg;stroke:rgb(300,,)", "fill", ":::", "stroke-width:1..2", "fill:url(#nope)", "fill:#12;stroke-width:abc;;:", "stroke:hsl(1,2,3);fill-opacity:1e400", "transform:matrix(1 2 3)", "fill:rgb(1,2", ";", "fill:red;stroke-width:-;stroke:#1234567", "stroke-opacity:junk;fill:", "fill:red:blue", "d:M0,0 h"],
 }
 
@@ -203,6 +205,10 @@ class _Gen:
                 out.append(e)
             elif k == "text":
                 a = {"x": _num(ch), "y": _num(ch)}
+                if ch.coin(0.3):
+                    a["font-size"] = ch.choice(["12", "10pt", "2em", "150%"])
+                if ch.coin(0.2):
+                    a["dx"], a["dy"] = _num(ch, 0, 10), _num(ch, 0, 10)
                 _paint(ch, a, self.classes)
                 e = self.elem("text", a, text=ch.choice(["hello", "Grüße – ünïcode ✓", "a < b & c", "line one", "x" * 40, "日本語テキスト"]))
                 out.append(e)
